@@ -322,13 +322,14 @@ def run(ctx):
                 else:
                     sig = {"kind": "trace_differs", "entry": x[0], "cut": rp["cut"]}
                     # a fill during the opening auction that is not at the open (finding F18: an auction order re-matched as a bar order at the day's close)
-                    if x[0] == "TRADE" and y[0] == "TRADE" and before_open and x[1].endswith("T00:00:00"):
+                    # (the fill exists in both histories at different prices, or — when the limit lies between the two closes — in one of them only)
+                    if before_open and any(z[0] == "TRADE" and z[1].endswith("T00:00:00") for z in (x, y)):
                         try:
-                            book = x[2]["book"]
-                            rec_ = next(r_ for r_ in S["stocks"] + S["futures"] if r_["id"] == book)
-                            open_ = rec_["bars"][ci][1]
-                            if abs(float(x[2]["price"]) - open_) > 1e-9 or abs(float(y[2]["price"]) - open_) > 1e-9:
-                                sig = {"kind": "auction_trade_not_at_open"}
+                            for z in (x, y):
+                                if z[0] == "TRADE" and z[1].endswith("T00:00:00"):
+                                    rec_ = next(r_ for r_ in S["stocks"] + S["futures"] if r_["id"] == z[2]["book"])
+                                    if abs(float(z[2]["price"]) - rec_["bars"][ci][1]) > 1e-9:
+                                        sig = {"kind": "auction_trade_not_at_open"}
                         except Exception:
                             pass
                     sx, sy = json.dumps(x), json.dumps(y)
